@@ -625,3 +625,93 @@ def _orig_node(m, f):
         if fn.name == f.name and ((c.name if c else None) == (f.cls.name if f.cls else None)):
             return fn
     return None
+
+
+# ------------------------------------------------------------------------------ D-PATH
+def _own_loads(node):
+    """Name loads evaluated when the statement/test itself runs (not the bodies of lambdas,
+    nested functions or comprehension elements -- of a comprehension only its first iterable)"""
+    out = []
+    stack = [node]
+    while stack:
+        n = stack.pop()
+        if isinstance(n, (ast.Lambda, ast.FunctionDef, ast.AsyncFunctionDef)):
+            continue
+        if isinstance(n, (ast.ListComp, ast.SetComp, ast.DictComp, ast.GeneratorExp)):
+            stack.append(n.generators[0].iter)
+            continue
+        if isinstance(n, ast.Name) and isinstance(n.ctx, ast.Load):
+            out.append(n)
+        stack.extend(ast.iter_child_nodes(n))
+    return out
+
+
+def _stores(node):
+    return {n.id for n in ast.walk(node) if isinstance(n, ast.Name) and isinstance(n.ctx, ast.Store)}
+
+
+def check_path_assigned(repo, res, rule, reach=None):
+    """A local read on a feasible path of its function on which nothing has assigned it yet
+    (paths that skip a loop are not used: whether a loop can run zero times is not decided
+    here).  Judged on the enumerated paths of the normalised function."""
+    from ..paths import locally_feasible
+    from .common import cached_paths
+    reach = reach if reach is not None else reachable(repo)
+    n_paths = 0
+    for f in repo.all_functions(include_inlined=True):
+        m = f.module
+        if not _live(m) or (m.name, f.cls.name if f.cls else None, f.name) not in reach:
+            continue
+        loc, _glob = _local_names(f.node)
+        loc -= _params(f.node)
+        if not loc:
+            continue
+        try:
+            paths = cached_paths(f)
+        except RecursionError:
+            continue
+        seen = set()
+
+        def use(x, assigned, p):
+            if x.id in loc and x.id not in assigned and x.id not in seen:
+                if not locally_feasible(p.events):
+                    return
+                seen.add(x.id)
+                res.bad(rule, f, x, '`%s` read in %s' % (x.id, f.qual),
+                        'on a path of %s the local `%s` is read before anything has assigned it (it is assigned only on '
+                        'other branches): UnboundLocalError when that path is taken, the run does not complete' % (
+                            f.qual, x.id), path=p.describe())
+        for p in paths:
+            if any(e.kind == 'for0' for e in p.events):
+                continue
+            n_paths += 1
+            assigned = set()
+            for e in p.events:
+                if e.frame is not None and e.frame.func is not f:
+                    continue
+                n = e.node
+                if e.kind in ('stmt', 'test') and n is not None:
+                    if e.kind == 'stmt' and isinstance(n, (ast.With, ast.AsyncWith)):
+                        for it in n.items:
+                            for x in _own_loads(it.context_expr):
+                                use(x, assigned, p)
+                            if it.optional_vars is not None:
+                                assigned |= _stores(it.optional_vars)
+                        continue
+                    if isinstance(n, ast.AugAssign) and isinstance(n.target, ast.Name):
+                        use(n.target, assigned, p)
+                    for x in _own_loads(n):
+                        use(x, assigned, p)
+                    assigned |= _stores(n)
+                    if isinstance(n, (ast.FunctionDef, ast.AsyncFunctionDef, ast.ClassDef)):
+                        assigned.add(n.name)
+                    if isinstance(n, (ast.Import, ast.ImportFrom)):
+                        for a in n.names:
+                            assigned.add((a.asname or a.name).split('.')[0])
+                elif e.kind in ('for', 'loop') and isinstance(n, (ast.For, ast.AsyncFor)):
+                    for x in _own_loads(n.iter):
+                        use(x, assigned, p)
+                    assigned |= _stores(n.target)
+                elif e.kind == 'except' and n is not None and getattr(n, 'name', None):
+                    assigned.add(n.name)
+    return n_paths
